@@ -297,6 +297,10 @@ def run_native(c, case, concrete, seed=0, history=None):
             args, kwargs = built if isinstance(built, tuple) and len(built) == 2 and isinstance(built[1], dict) else (built, {})
         if ctx.get("no_native"):
             return {"skipped": f"not runnable natively: {ctx['no_native']}"}
+        if c.spec is None and getattr(c, "native_post", None) is None:
+            # a direct property check without a native form: its harness builds symbolic objects itself and cannot be
+            # run on real jax -- nothing to replay (never a confirmation)
+            return {"skipped": "direct check without a native form of its post-condition"}
         if c.invoke is not None:
             try:
                 bargs, bkw = c.bind((None,) + tuple(args), kwargs)
@@ -322,6 +326,11 @@ def run_native(c, case, concrete, seed=0, history=None):
                 if "apply" in ctx and callable(res):
                     res = res(*_to_native(tuple(ctx["apply"]), env))
         except CT.EXPECTED_EXC as ex:
+            txt = f"{type(ex).__name__}: {ex}"
+            if isinstance(ex, TypeError) and any(s in txt for s in ("SArr", "SInt", "SFloat", "symjnp", "is not a valid JAX type", "Key(")):
+                # a symbolic object of the harness reached the real jax: the harness is not runnable natively here -- an
+                # error of the replay machinery, never evidence about the code
+                raise RuntimeError(f"harness not runnable natively: {txt[:200]}") from ex
             exc = ex
         # ---- the spec
         expected_exc = None
@@ -339,7 +348,14 @@ def run_native(c, case, concrete, seed=0, history=None):
                                                   f"contract expects {expected_exc.__name__ if expected_exc else 'a normal return'}")
             return info
         if c.spec is None:
-            info.update(confirmed=False, detail="no spec")
+            # direct property check: its native counterpart evaluates the same statement on the real result (numpy)
+            npost = getattr(c, "native_post", None)
+            if npost is None:
+                info.update(confirmed=False, detail="no native form of this post-condition")
+                return info
+            with native_random():
+                fails = npost(res, *nargs, **nkw)
+            info.update(confirmed=bool(fails), detail="; ".join(fails[:4]) if fails else "the property's statement holds natively at these inputs")
             return info
         with engine.no_div_guard():
             exp = c.spec(*bargs, **bkw)
@@ -380,6 +396,11 @@ def replay_obligation(ob, seed=0, max_battery=16):
             tried.append({"source": src, "error": f"{type(ex).__name__}: {str(ex)[:200]}"})
             continue
         r["source"] = src
+        if r.get("confirmed") and str(r.get("detail", "")).startswith("native raised") and ob.get("kind") not in ("raises", "bounded"):
+            # an exception in the native run is evidence only for an obligation about exceptions; for a value obligation it is
+            # far more likely a harness that cannot be run natively than a witness
+            r["confirmed"] = False
+            r["detail"] = "(not counted: exception in the native run while replaying a value obligation) " + r["detail"]
         if r.get("confirmed"):
             r["tried_before"] = len(tried)
             return r
